@@ -307,6 +307,26 @@ getall
 reopen
 getall
 """),
+    dict(tags=['scn_flush_in_compaction'], big=False, text="""put 0
+put 2
+put 4
+put 6
+put 8
+flush
+getall
+put 1
+put 3
+put 5
+put 7
+put 9
+flush
+getall
+racecompact 1 4
+getall
+scan
+reopen
+getall
+"""),
     dict(tags=['scn_deep_reopen2'], big=False, text="""put 0
 put 9
 flush
